@@ -692,3 +692,79 @@ func zzC08ServerClose() {
 	}
 	vReach("end")
 }
+
+// ---------------------------------------------------------------- C08: the standalone stream (GET without a request)
+//
+// Messages that belong to no request — and, in JSON-response mode, the notifications and server-to-client calls of
+// every request — travel on the session's standalone SSE stream. It is a logical stream like any other: with an event
+// store, what a client receives from any resume point is exactly what was written after it, with consecutive, stable
+// ids, also for messages written while no GET was attached. The response mode of POST exchanges (SSE or JSON) has no
+// bearing on it.
+func zzC08Standalone() {
+	env := &zzSrvEnv{streamNames: []string{"st1", "st2"}}
+	zzSrv8 = env
+	store := &zzAtomicStore{EventStore: NewMemoryEventStore(nil)}
+	c := zzConnect(store, false, vBool("jsonResponse"))
+	store.c = c
+	version := protocolVersion20250618
+	total := vParam("writes")
+	n1 := vChoice("attachedWrites", total)
+	n2 := vChoice("detachedWrites", total-n1+1)
+	var written []jsonrpc.Message
+	write := func() {
+		m := &jsonrpc.Request{Method: "notifications/message", Params: vJSON(len(written))}
+		env.inWrite = true
+		err := c.Write(context.WithValue(context.Background(), protocolVersionContextKey{}, version), m)
+		env.inWrite = false
+		vAssert(err == nil, "C08.standalone.write-accepted")
+		written = append(written, m)
+	}
+	env.hangScript = func(*streamableServerConn, context.Context) {
+		for i := 0; i < n1; i++ {
+			write()
+		}
+	}
+	first := zzNewExch("get")
+	zzGET(c, first, version, "")
+	vAssert(first.code == 200 || first.code == 0, "C08.standalone.attach-accepted")
+	for i := 0; i < n2; i++ {
+		write() // nobody attached: stored for the resume
+	}
+	check := func(x *zzExch, from int, label string) int {
+		k := 0
+		for _, e := range x.events {
+			if e.name == "prime" {
+				continue
+			}
+			idx := from + k
+			vAssert(idx < len(written), label+".no-phantom")
+			vAssert(e.id == formatEventID("", idx), label+".ids-consecutive-and-stable")
+			vAssert(zzSameMsg(e.data, written[idx]), label+".payload-is-that-message")
+			k++
+		}
+		return k
+	}
+	got1 := check(first, 0, "C08.standalone.live")
+	vAssert(got1 == n1, "C08.standalone.live.receives-attached-writes")
+	if got1 == 0 {
+		vReach("no-cursor")
+		return
+	}
+	resumeAfter := vChoice("resumeAfter", got1)
+	n3 := total - n1 - n2
+	if n3 < 0 {
+		n3 = 0
+	}
+	env.hangScript = func(*streamableServerConn, context.Context) {
+		for i := 0; i < n3; i++ {
+			write()
+		}
+	}
+	get := zzNewExch("resume")
+	zzGET(c, get, version, formatEventID("", resumeAfter))
+	vAssert(get.code == 200 || get.code == 0, "C08.standalone.resume-accepted")
+	got2 := check(get, resumeAfter+1, "C08.standalone.resume")
+	vAssert(got2 == len(written)-(resumeAfter+1), "C08.standalone.resume.everything-after-the-cursor-exactly-once")
+	vReach("resumed")
+	vReach("end")
+}
